@@ -33,7 +33,13 @@ def run_history(rng, kind, length, oracle=None, gen=None, ops_fixed=None, warm=T
         outcomes.append(code)
         expected.append((code, C.hash_tokens(after)))
         if oracle is not None and why_first is None:
-            why = oracle(g, kind, op, code, before, after, ctx)
+            try:
+                why = oracle(g, kind, op, code, before, after, ctx)
+            except Exception as e:  # noqa: BLE001  (a read-only view that raises on a state reached by public mutators)
+                import traceback
+                fr = traceback.extract_tb(e.__traceback__)[-1]
+                why = (f'a read-only view raised {type(e).__name__}: {str(e)[:160]} (in {fr.name}, {fr.filename.split("/")[-1]}:{fr.lineno}) '
+                       f'on the state reached after {op[0]}')
             if why:
                 why_first = (i, why)
         before = after
